@@ -64,6 +64,7 @@ type FuncContract struct {
 	Partial    bool    // paths reaching an instruction outside the subset are abandoned (listed as unchecked)
 	CallSites  []*CallSiteSpec
 	StopAfter  []string
+	ExactKeys  bool
 	NotClaimed [][3]string // obligation kind, fragment of its source line, reason
 }
 
@@ -118,7 +119,7 @@ var ckeywords = map[string]bool{
 	"ensures": true, "modifies": true, "nopanic": true, "nooverflow": true, "pure": true,
 	"trusted": true, "inline": true, "loop": true, "use": true, "split": true, "tier": true,
 	"induct": true, "ih": true, "allocbound": true, "abstract": true, "ghost": true, "uninterp": true, "where": true, "import": true, "globalinv": true, "slow": true,
-	"partial": true, "callsite": true, "ghostvar": true, "stopafter": true, "notclaimed": true,
+	"partial": true, "callsite": true, "ghostvar": true, "stopafter": true, "notclaimed": true, "exactkeys": true,
 }
 
 func parseParams(s string) ([]Param, error) {
@@ -455,6 +456,9 @@ func loadContracts(path string) (*PkgContracts, error) {
 					}
 					j := strings.Index(tail[1:], "\"") + 1
 					curF.NotClaimed = append(curF.NotClaimed, [3]string{ob, tail[1:j], strings.TrimSpace(tail[j+1:])})
+				case "exactkeys":
+					// every integer conversion that directly forms a map key must preserve the value
+					curF.ExactKeys = true
 				case "partial":
 					curF.Partial = true
 				case "stopafter":
